@@ -305,6 +305,17 @@ def run(repo: Repo, chk: Check, thorough: bool = False) -> None:
         for st_, okp, whyp in pushback_loops(repo, f):
             n_pb += 1
             chk.ob('R01.4', f'{f.qn} :: push-back `{norm(st_)[:40]}` leaves the loop', okp, whyp, repo.loc(f.mod, st_))
+    from ..progress import scan_loops
+    n_scan = 0
+    for f in sorted(repo.funcs.values(), key=lambda f: f.qn):
+        if '.test' in f.mod.name or f.mod.name in tables.OPAQUE_MODULES or f.mod.name.startswith('pydoctor.sphinx_ext'):
+            continue
+        for k_, (lp_, oks, whys) in enumerate(scan_loops(repo, f)):
+            n_scan += 1
+            chk.ob('R01.4', f'{f.qn} :: scanning loop #{k_ + 1} moves its position on every way round', oks, whys, repo.loc(f.mod, lp_))
+    if n_scan < 2:
+        raise AnalysisError(f'R01.4: {n_scan} scanning loops found (epytext._colorize and doctest.subfunc confirmed)')
+    chk.stats['scan_loops'] = n_scan
     chk.stats['pushback_sites'] = n_pb
     chk.stats['while_loops'] = n_loops
     chk.stats['while_loops_decided'] = n_decided
